@@ -94,6 +94,10 @@ CATALOGUE = [
 BENIGN_ATTACH_DEEPCOPY_DROPPED = ("attach_deepcopy_dropped", S + "mol_gen.py", "        other_bond_descriptors = copy.deepcopy(other.bond_descriptors)\n",
      "        other_bond_descriptors = list(other.bond_descriptors)\n", ["C05"])
 CATALOGUE.append(BENIGN_ATTACH_DEEPCOPY_DROPPED)
+# typing rules visited in the iteration order of a set of str: ties between equally long rules are then settled by the
+# interpreter's string hash seed (only a process restart under another PYTHONHASHSEED can show it)
+CATALOGUE.append(("ff_rules_in_hash_order", S + "forcefield_helper.py", "        for rule in self._rule_dict:\n            rule_mol",
+                  "        for rule in set(self._rule_dict):\n            rule_mol", ["C20"]))
 
 # behaviour-preserving edits: every check must stay quiet on them (soundness)
 BENIGN_MIRROR_SHALLOW = ("mirror_shallow", S + "molecule.py", "        mirror = copy.deepcopy(self)\n", "        mirror = copy.copy(self)\n", ["C10"])
